@@ -105,7 +105,7 @@ TPairInject ==
   /\ Ev("pair_inject") /\ lk.on /\ lk.t = "pair"
   /\ E.obs.delivered = 0
   /\ IF E.tkind = "rs" THEN (E.obs.dropped \/ E.obs.esc # "")                                \* RawSocket: abort (or the framework drops)
-     ELSE IF E.fbd THEN E.obs.dropped /\ E.obs.reasonKind = WantReason(E.kind)               \* WebSocket, fail by drop
+     ELSE IF E.fbd THEN E.obs.dropped                                                         \* WebSocket, fail by drop (no status on the wire)
           ELSE E.obs.code = WantCode(E.kind)                                                 \* WebSocket, closing handshake
   /\ lk' = Pair(lk.qC, lk.qS, FALSE)
 TPairLose == Ev("pair_lose") /\ lk.on /\ lk.t = "pair" /\ lk' = Pair(lk.qC, lk.qS, FALSE)
